@@ -205,6 +205,10 @@ impl Storage for SecondaryStorage {
         self.drop_table_inner(table_id).await
     }
 
+    async fn drop_tables(&self, table_ids: &[TableRefId]) -> StorageResult<()> {
+        self.drop_tables_inner(table_ids).await
+    }
+
     fn as_disk(&self) -> Option<&SecondaryStorage> {
         Some(self)
     }
